@@ -65,15 +65,15 @@ type sliceObs struct {
 }
 
 type longHist struct {
-	opts      longOpts
-	puts      []putRec
-	sessions  []*consSession
-	slices    []sliceObs
-	anomalies []anomaly
+	opts         longOpts
+	puts         []putRec
+	sessions     []*consSession
+	slices       []sliceObs
+	anomalies    []anomaly
 	cleanerCalls int64
 	shifts       int64
 	totalVals    int
-	mu        sync.Mutex
+	mu           sync.Mutex
 }
 
 func (h *longHist) anomaly(cat, key, format string, args ...any) {
